@@ -675,6 +675,17 @@ def c03(tier):
             if k.startswith("fault:"):
                 seen_rules[k[6:]] = seen_rules.get(k[6:], 0) + v
         os.remove(res["out"])
+    # informational (outside the property: programs with MANY violations; the cascade policy is unspecified): syntactically valid
+    # programs of SplGrammar with arbitrary names, the implementation's trees judged by SplCheck
+    res = vlib.tlc("MC_SplGrammar", "MC_SplGrammar_n15.cfg", "c03_multi", timeout=3000, heap="16g")
+    rt, tres = validate_static_trace(res["out"], "c03_multi", stride=25 if tier == "quick" else 3)
+    c.add_tlc(tres, "TraceStatic on programs with many violations (informational)")
+    c.notes["programs_with_many_violations"] = {
+        "what": "syntactically valid programs of SplGrammar (names not resolved by construction): kinds reported by the implementation vs "
+                "rules SplCheck finds violated in the implementation's tree; differences are NOT failures (cascade policy is unspecified)",
+        "judged": rt["cases"], "judgement_differs": len([f for f in rt["failures"] if f["what"] == "tree-judgement-differs"]),
+        "examples": [f["detail"] for f in rt["failures"] if f["what"] == "tree-judgement-differs"][:3]}
+    os.remove(res["out"])
     missing = [x for x in ALL_RULES if seen_rules.get(x, 0) == 0]
     c.notes["fault_programs_per_rule"] = seen_rules
     if len(missing) > (3 if tier == "quick" else 0):
